@@ -1,5 +1,5 @@
 /- L0 facts about the accessors, Display and Default of MovingAverageConvergenceDivergence (split from Lemmas/MovingAverageConvergenceDivergence.lean so that a change to one method only invalidates the facts about that method) -/
-import TaRs.Lemmas.MovingAverageConvergenceDivergence
+import TaRs.Lemmas.Core.MovingAverageConvergenceDivergence
 import TaRs.Lemmas.Misc.ExponentialMovingAverage
 set_option linter.unusedSectionVars false
 namespace TaRs.Gen.MovingAverageConvergenceDivergence
